@@ -322,3 +322,20 @@ def suspension_point(what="await"):
     EVENTS.append(("suspend", what))
     if _SUSPEND_HOOK[0] is not None:
         _SUSPEND_HOOK[0](what)
+
+
+def enable_guarded_collections():
+    pass
+
+
+def pick(values, idx):
+    return values[idx]
+
+
+def members(xs):
+    return [(True, v) for v in xs]
+
+
+def exclude_case_unless(cond):
+    if not cond:
+        raise PreconditionFailed()
